@@ -4,19 +4,22 @@ package main
 import (
 	"flag"
 	"os"
+	"time"
 
 	"verif/harness/vx"
 )
 
 func main() {
 	if len(os.Args) < 2 || os.Args[1] != "hist" {
-		vx.Die("usage: hx-c15 hist --nev N --npr N --nno N --conc N --seed S --out cases.v --stats stats.json")
+		vx.Die("usage: hx-c15 hist --nev N --npr N --nno N --conc N --barrier N --seed S --out cases.v --stats stats.json")
 	}
 	fs := flag.NewFlagSet("hist", flag.ExitOnError)
 	nev := fs.Int("nev", 200, "event histories")
 	npr := fs.Int("npr", 100, "promise histories")
 	nno := fs.Int("nno", 150, "notifier histories")
 	conc := fs.Int("conc", 10, "free-running runs per kind")
+	barrier := fs.Int("barrier", 3000, "rounds of barrier-released simultaneous triggers on limited events/hooks")
+	barrierMs := fs.Int("barrier-ms", 4000, "wall-clock cap for the barrier rounds")
 	seed := fs.Uint64("seed", 1, "")
 	out := fs.String("out", "cases.v", "")
 	stats := fs.String("stats", "stats.json", "")
@@ -63,9 +66,11 @@ func main() {
 		t, k, nt, f := runNotifierHistory(rr, 4+rr.Intn(26), 0)
 		add("notifier", t, k, nt, f, "random")
 	}
-	concEvents(r.Fork(), st, *conc)
-	concPromise(r.Fork(), st, *conc)
-	concNotifier(r.Fork(), st, *conc)
+	re, rp, rn, rb := r.Fork(), r.Fork(), r.Fork(), r.Fork() // (the barrier stream is forked last: the older streams keep their seeds)
+	barrierLimits(rb, st, *barrier, time.Duration(*barrierMs)*time.Millisecond)
+	concEvents(re, st, *conc)
+	concPromise(rp, st, *conc)
+	concNotifier(rn, st, *conc)
 	if err := cf.Write(*out); err != nil {
 		vx.Die("%v", err)
 	}
